@@ -85,6 +85,8 @@ func zzC05Types() []zzC05Type {
 		{"In!", NewNonNull(zzC05In), nil, ""},
 		{"[In]", NewList(zzC05In), nil, ""},
 		{"[E!]", NewList(NewNonNull(zzC05Enum)), []interface{}{"g"}, "[GREEN]"},
+		{"ID", ID, "id7", `"id7"`},
+		{"[ID!]", NewList(NewNonNull(ID)), []interface{}{"8"}, "[8]"},
 		{"In3", zzC05In3, map[string]interface{}{"p": 9}, "{}"},
 		{"[In3!]", NewList(NewNonNull(zzC05In3)), nil, ""},
 	}
@@ -104,6 +106,27 @@ func zzC05Ref(t Input, v interface{}) (interface{}, int) {
 	switch tt := t.(type) {
 	case *List:
 		of := tt.OfType.(Input)
+		// lists built in Go with typed slices are lists all the same
+		switch x := v.(type) {
+		case []int:
+			g := make([]interface{}, len(x))
+			for i := range x {
+				g[i] = x[i]
+			}
+			v = g
+		case []string:
+			g := make([]interface{}, len(x))
+			for i := range x {
+				g[i] = x[i]
+			}
+			v = g
+		case []map[string]interface{}:
+			g := make([]interface{}, len(x))
+			for i := range x {
+				g[i] = x[i]
+			}
+			v = g
+		}
 		if l, ok := v.([]interface{}); ok {
 			out := []interface{}{}
 			st := zzStOK
@@ -204,6 +227,20 @@ func zzC05Ref(t Input, v interface{}) (interface{}, int) {
 				return "C:" + s, zzStOK
 			}
 			return nil, zzStBad
+		case "ID":
+			// any string or integer is an ID; it reaches the resolver as a string
+			switch x := v.(type) {
+			case string:
+				return x, zzStOK
+			case int:
+				return zzItoa(x), zzStOK
+			case float64: // JSON numbers
+				if x == 1.5 {
+					return nil, zzStLenient
+				}
+				return zzItoa(int(x)), zzStOK
+			}
+			return nil, zzStLenient
 		}
 	}
 	return nil, zzStLenient
@@ -403,11 +440,17 @@ func zzC05Value(shape int, ki int, kf float64) (v interface{}, present bool, use
 		return map[string]interface{}{"q": "s"}, true, false
 	case 27:
 		return []interface{}{map[string]interface{}{}, map[string]interface{}{"p": ki}}, true, true
+	case 28: // typed Go slices
+		return []int{ki, 7}, true, true
+	case 29:
+		return []string{"GREEN", "RED"}, true, false
+	case 30:
+		return []map[string]interface{}{{"b": "y"}, {"b": "z", "a": ki}}, true, true
 	}
 	return nil, false, false
 }
 
-const zzC05Shapes = 28
+const zzC05Shapes = 31
 
 type zzC05Rec struct {
 	calls int
@@ -457,7 +500,8 @@ func ZZ_C05_variables() {
 	var kf float64
 	symbolic := false
 	if _, _, usesK := zzC05Value(shape, 0, 0); usesK {
-		if zzChoice("ksym", 2) == 1 {
+		// (IDs are rendered as decimal text, so they get the concrete boundary integers only)
+		if !zzContains(ty.decl, "ID") && zzChoice("ksym", 2) == 1 {
 			k := zzInt64("k")
 			zzAssume(zzAnd(k >= -2147483650, k <= 2147483650))
 			ki, kf = int(k), float64(k)
@@ -583,5 +627,53 @@ func ZZ_C05_nested() {
 	zzAssert(len(r.Errors) == 0, "unexpected errors")
 	zzAssert(rec.calls == 1, "resolver not called exactly once")
 	zzAssert(zzC05Eq(rec.args, map[string]interface{}{"v": expect}), "input object literal with variables: resolver arguments differ from the coerced value")
+	zzCover("end")
+}
+
+// ZZ_C05_subscribe: the Subscribe function of a subscription field is a
+// resolver too: it receives the coerced arguments (enum internal values, Int
+// from a JSON number, input-field defaults, list-of-one), whether they come
+// from variables or literals.
+func ZZ_C05_subscribe() {
+	types := zzC05Types()
+	ty := types[zzChoice("type", len(types))]
+	_, isNN := ty.t.(*NonNull)
+	argDefault := ty.def != nil && zzChoice("argdef", 2) == 1
+	shape := zzChoice("shape", zzC05Shapes)
+	var ki int
+	var kf float64
+	if _, _, usesK := zzC05Value(shape, 0, 0); usesK {
+		k := zzC05Ints[zzChoice("kc", 2)] // 0 or -7: the integer itself is covered by ZZ_C05_variables
+		ki, kf = int(k), float64(k)
+	}
+	value, present, _ := zzC05Value(shape, ki, kf)
+	zzAssume(!(value == nil && isNN))
+	want, st := zzC05Ref(ty.t, value)
+	zzAssume(st == zzStOK)
+	rec := &zzC05Rec{}
+	arg := &ArgumentConfig{Type: ty.t}
+	if argDefault {
+		arg.DefaultValue = ty.def
+	}
+	sub := NewObject(ObjectConfig{Name: "Subscription", Fields: Fields{
+		"f": &Field{Type: String, Args: FieldConfigArgument{"v": arg},
+			Subscribe: func(p ResolveParams) (interface{}, error) {
+				rec.calls++
+				rec.args = p.Args
+				return "once", nil
+			},
+			Resolve: func(p ResolveParams) (interface{}, error) { return "r", nil }}}})
+	q := NewObject(ObjectConfig{Name: "Query", Fields: Fields{"a": &Field{Type: String}}})
+	schema, err := NewSchema(SchemaConfig{Query: q, Subscription: sub})
+	zzAssert(err == nil, "schema")
+	vars := map[string]interface{}{}
+	if present {
+		vars["x"] = value
+	}
+	ch := Subscribe(Params{Schema: schema, RequestString: "subscription($x:" + ty.decl + "){ f(v:$x) }", VariableValues: vars})
+	r := <-ch
+	zzAssert(r != nil && len(r.Errors) == 0, "subscription failed for a conformant variable value")
+	zzAssert(rec.calls == 1, "Subscribe not called exactly once")
+	zzAssert(zzC05Eq(rec.args, zzC05ExpectArgs(want, ty, argDefault)), "Subscribe received arguments that differ from the coerced value")
 	zzCover("end")
 }
